@@ -53,9 +53,21 @@ const amtAlphabet = "0123456789.+-e_ "
 func genAmt(g *Gen) {
 	r := g.Rng
 	maxAmt := massutil.MaxAmount().IntValue()
-	emitParse := func(class, s string) { g.Op(class, "parse %s", hexTok([]byte(s))) }
+	// The engine is stateless, so every op is its own history.  `reset` lines keep the history that
+	// ./check attaches to a disagreement short: one op in the hand-written / boundary / short
+	// exhaustive part (where a defect shows up first => single-line replay), at most `every` ops later.
+	every, sinceReset := 1, 0
+	tick := func() {
+		if sinceReset%every == 0 {
+			g.Reset()
+		}
+		sinceReset++
+	}
+	emitParse := func(class, s string) { tick(); g.Op(class, "parse %s", hexTok([]byte(s))) }
 	emitFormat := func(class string, m int64) {
+		tick()
 		g.Op(class, "format %d", m)
+		tick()
 		g.Op(class+"2", "format2 %d", m)
 	}
 	// hand-written regression strings (D7 witnesses first)
@@ -71,19 +83,57 @@ func genAmt(g *Gen) {
 	}
 	// exhaustive short strings over the property's alphabet
 	maxLen := g.Scale(3, 5)
-	var rec func(prefix string, n int)
-	rec = func(prefix string, n int) {
-		emitParse(fmt.Sprintf("exh-len%d", len(prefix)), prefix)
+	var rec func(class, prefix string, n int)
+	rec = func(class, prefix string, n int) {
 		if n == 0 {
+			emitParse(class, prefix)
 			return
 		}
 		for i := 0; i < len(amtAlphabet); i++ {
-			rec(prefix+string(amtAlphabet[i]), n-1)
+			rec(class, prefix+string(amtAlphabet[i]), n-1)
 		}
 	}
-	rec("", maxLen)
+	for l := 0; l <= maxLen; l++ {
+		if l >= 4 {
+			every, sinceReset = 32, 0
+		}
+		rec(fmt.Sprintf("exh-len%d", l), "", l)
+	}
+	every, sinceReset = 1, 0
+	// the 8/9-significant-fraction-digit edge and the supply edge, exhaustively over {0,1} fractions of
+	// 7..9 digits behind three integer parts (includes trailing-zero runs that bring 9 digits back to <= 8)
+	for _, ip := range []string{"0", "", "206438399", "206438400"} {
+		for l := 7; l <= 9; l++ {
+			for v := 0; v < 1<<uint(l); v++ {
+				fp := make([]byte, l)
+				for j := 0; j < l; j++ {
+					fp[j] = byte('0' + (v>>uint(j))&1)
+				}
+				emitParse("frac-edge", ip+"."+string(fp))
+			}
+		}
+	}
+	every, sinceReset = 32, 0
+	if !g.Quick() {
+		// deeper exhaustive layers over reduced alphabets (the full 16-symbol alphabet stops at length 5)
+		var rec2 func(class, alpha, prefix string, n int)
+		rec2 = func(class, alpha, prefix string, n int) {
+			if n == 0 {
+				emitParse(class, prefix)
+				return
+			}
+			for i := 0; i < len(alpha); i++ {
+				rec2(class, alpha, prefix+string(alpha[i]), n-1)
+			}
+		}
+		rec2("exh6-reduced", "019.+-e ", "", 6)
+		rec2("exh7-reduced", "09.+-", "", 7)
+		for l := 8; l <= 11; l++ {
+			rec2("exh8to11-ternary", "01.", "", l)
+		}
+	}
 	// random structured numerals
-	n := g.Scale(20000, 400000)
+	n := g.Scale(160000, 2000000)
 	for i := 0; i < n; i++ {
 		switch r.Intn(8) {
 		case 0, 1, 2: // valid numeral
